@@ -247,7 +247,7 @@ pub fn cli(ctx: &Ctx) -> Stats {
         let (k, w) = if rep == 0 { (3usize, 12usize) } else { (rng0.usize(3, 7), rng0.usize(9, 40)) };
         let _ = (k, w);
         for d in degenerate_inputs(&mut rng0, 7, 12) {
-            for which in 0..13usize {
+            for which in 0..14usize {
                 jobs.push((d.clone(), which));
             }
         }
@@ -284,6 +284,14 @@ pub fn cli(ctx: &Ctx) -> Stats {
                 let fastq_ok = !d.recs.is_empty() && d.recs.iter().all(|r| !r.seq.is_empty());
                 let alt = if !main_is_fq && fastq_ok { sc.write("alt.fastq", &ser::to_fastq(&d.recs, &SerOpts::plain())) } else { sc.write("alt.fna", &ser::to_fasta(&d.recs, &SerOpts::plain())) };
                 CliCase { name: "cov(--alt-input)", args: sv(&["cov", "-i", &inp, "-a", &alt, "-o", &out_dir, "-k", "7", "-s", "5", "-c", "6", "-t", t]), kind: Kind::Cov { k: 7, norm: true } }
+            }
+            13 => {
+                // a window far longer than any record ("records shorter than w"): nothing can be computed, one
+                // empty line per record; the window option has no documented upper bound
+                let s2m = idx % 4 < 2;
+                let w = [1_000_000usize, 10_000_000_000, 10_000_000_000_000, 1 << 62][(idx / 4 % 4) as usize];
+                let ws = w.to_string();
+                CliCase { name: if s2m { "min(huge w,s2m)" } else { "min(huge w,m2s)" }, args: sv(&["min", "-i", &inp, "-o", &out_file, "-m", "7", "-w", &ws, "-p", if s2m { "s2m" } else { "m2s" }, "-t", t]), kind: Kind::Min { m: 7, w, s2m } }
             }
             10 => {
                 let s2m = idx % 4 < 2;
